@@ -23,6 +23,7 @@ fn main() {
             };
             driver::run_generic(&args[2], tier)
         }
+        "child" => vh::props::big::child_main(&args[2..]),
         "replay" => {
             if args.len() < 3 {
                 usage();
